@@ -79,7 +79,10 @@ def _is_number_text(string):
     lexical space."""
 
     if isinstance(string, six.binary_type):
-        return b'_' not in string
+        try:
+            string = string.decode('ascii')
+        except UnicodeError:
+            return False
 
     if u'_' in string:
         return False
@@ -88,6 +91,11 @@ def _is_number_text(string):
         string.encode('ascii')
     except UnicodeError:
         return False
+
+    # python also takes \x0b, \x0c and \x1c to \x1f for white space
+    for c in string:
+        if c < u' ' and c not in u'\t\r\n':
+            return False
 
     return True
 
